@@ -130,6 +130,7 @@ type Exec struct {
 	closed   map[uintptr]interface{}
 	tracing  bool
 	post     bool
+	quiet    bool
 	accesses map[string]int
 	Trace    []Step
 	Diverge  string
@@ -429,6 +430,9 @@ func (e *Exec) pick(cur *thread) *thread {
 }
 
 func (e *Exec) choose(cls Class, n int, costs bool, label string) int {
+	if e.quiet && (cls == ClsSched || cls == ClsSwitch || cls == ClsSelect) {
+		return 0 // outside the scenario's window of interest: the default schedule, no alternatives
+	}
 	i := len(e.Choices)
 	pick := 0
 	if i < len(e.prefix) {
@@ -568,6 +572,16 @@ func Note(sig, detail string) {
 func SetOutcome(s string) {
 	if e := E; e != nil {
 		e.Outcome = s
+	}
+}
+
+// SetQuiet(true) makes the scheduler follow the default schedule without recording choice points (thread
+// switches, select arms) until SetQuiet(false): a scenario uses it to spend its preemption/delay budget in the
+// window it is about (after a long set-up, before a long epilogue) instead of everywhere. Input and environment
+// choices are not affected. The narrowing is part of the scenario's stated bound.
+func SetQuiet(on bool) {
+	if e := E; e != nil {
+		e.quiet = on
 	}
 }
 
